@@ -1,6 +1,594 @@
 # -*- coding: utf-8 -*-
-"""placeholder until R-SCHEMA lands"""
+"""
+Writer/reader agreement rules shared by C01..C05, C07, C17:
+R-SCHEMA, R-FIELDS, R-COMPOSITE, R-REQUIRED, R-GATE, R-HDR-CURRENT, R-SETCUR.
+"""
+from __future__ import annotations
+
+import ast
+
+from .. import facts
+from .. import terms as T
+from ..core import AnalysisError
+from ..model import FuncRef, NotConst
+from .oracle_tables import REQUIRED_KEYS_SOFT_OK
+
+HOLE = ("bound", "□")
+
+
+def current_version(model):
+    v = model.const("common", "VERSION")
+    if not (isinstance(v, tuple) and len(v) == 2):
+        raise AnalysisError("common.VERSION is not a pair")
+    return v
+
+
+# ---------------------------------------------------------------------------------------------------------
+# R-SCHEMA
+# ---------------------------------------------------------------------------------------------------------
+# keys the writer emits that the current reader does not store (derived / checked instead of stored)
+SCHEMA_SKIP = {
+    ("treeinfo.Header", "version"): "written from the VERSION constant, read into self.version (R-HDR-CURRENT)",
+}
+WRITTEN_ONLY = {
+    ("common.Header", "type"): "read and compared with the expected type (R-HDR-GATE), not stored",
+    ("treeinfo.Header", "type"): "read and compared with the expected type (R-HDR-GATE), not stored",
+    ("treeinfo.Variant", "parent"): "derived: the reader re-creates the parent link from the 'addons' list",
+    ("treeinfo.Variant", "addons"): "read into a local and turned into child variants (R-TI-VARIANT-TREE)",
+    ("composeinfo.Variant", "variants"): "read into a local and turned into child variants (R-VARIANT-TREE)",
+}
+READ_ONLY = {}
+# a guarded write may depend on these attributes besides its own
+COMPANIONS = {
+    ("composeinfo.Compose", "final"): {"label"},
+    ("images.Image", "additional_variants"): {"unified"},
+    ("treeinfo.Stage2", "mainimage"): {"instimage"},
+    ("treeinfo.Stage2", "instimage"): {"mainimage"},
+    ("treeinfo.Media", "discnum"): {"totaldiscs"},
+    ("treeinfo.Media", "totaldiscs"): {"discnum"},
+}
+# documented defaults that differ from the attribute's __init__ value
+DOCUMENTED_DEFAULTS = {
+    ("images.Image", "format"): "iso",     # format did not exist before 1.0 documents; every image then was an ISO
+    ("composeinfo.BaseProduct", "type"): "ga",
+    ("composeinfo.Release", "type"): "ga",
+}
+# (writer shape, reader shape) pairs confirmed by reading to be inverse on the validated domain.
+# □ is the attribute on the writer side and the document value on the reader side.
+INVERSE_PAIRS = {
+    ("□", "□"): "identity",
+    ("□", "(□ or None)"): "label: empty/None label is stored as absent and read back as None",
+    ("□", "bool(□)"): "writer-side validator asserts bool (final next to a label, bootable)",
+    ("bool(□)", "bool(□)"): "bool both ways",
+    ("□", "□.lower()"): "release type is case-folded on read (documented normalisation)",
+    ("sorted(□)", "set(□)"): "set <-> sorted list",
+    ("□", "int(□)"): "writer-side validator asserts int (mtime, size, disc_number, disc_count)",
+    ("'true'", "getboolean(□)"): "INI boolean: 'true' written under a truthy guard, read with getboolean",
+    ("str(□)", "int(getfloat(□))"): "integer build timestamps (quantifier: integer timestamps): str <-> int(getfloat)",
+    ("str(int(□))", "getint(□)"): "media numbers: str(int(x)) <-> getint",
+    ("','.join(sorted((□ | set([self.arch]))))", "set(list<i for i in □.split(',') if i>)"):
+        "platforms: sorted comma list of the set (plus the tree arch, C17) <-> set of the non-empty items",
+    ("□", "self._fix_path(□)"): "_fix_path is the identity for every version but 0.0 (R-GATE)",
+}
+
+
+def wshape(cx, value, attrs):
+    def fn(x):
+        a = cx.self_attr(x)
+        if a is not None and a in attrs:
+            return HOLE
+        return None
+    return T.show(T.subst(value, fn))
+
+
+def rshape(value, sources):
+    terms = [s[3] for s in sources]
+
+    def hole_for(t):
+        # INI typed getters are part of the transform
+        if t[0] == "call" and t[1][0] == "attr" and t[1][2] in ("getint", "getfloat", "getboolean"):
+            return ("call", ("global", t[1][2]), (HOLE,), ())
+        return HOLE
+
+    def rec(t):
+        if t in terms:
+            return hole_for(t)
+        if not isinstance(t, tuple) or not t or t[0] == "const":
+            return t
+        if isinstance(t[0], str) and t[0] in T._KINDS:
+            return (t[0],) + tuple(rec(x) for x in t[1:])
+        return tuple(rec(x) for x in t)
+    return T.show(rec(value))
+
+
+def _const_key(t):
+    return t[1] if t[0] == "const" else None
+
+
+def schema_tables(model, qname, reader_in=1):
+    """(writer ctx, {key: [Emit]}, reader reads {key: [Read]}, section terms)"""
+    V = current_version(model)
+    wf = model.own_method(qname, "serialize")
+    wcx, emits = facts.writer_emits(model, wf)
+    rf = model.own_method(qname, "deserialize")
+    reads = facts.reader_reads(model, rf, in_index=reader_in, version=V)
+    W = {}
+    wsec = set()
+    for e in emits:
+        if e.kind in ("store", "set") and e.path:
+            k = _const_key(e.path[-1])
+            if k is None or e.value == ("dict", ()):
+                continue
+            W.setdefault(k, []).append(e)
+            wsec.add(tuple(T.show(p) for p in e.path[:-1]))
+    R = {}
+    rsec = set()
+    unkeyed = []
+    for r in reads:
+        keyed = False
+        for s in r.sources:
+            k = _const_key(s[0][-1]) if s[0] else None
+            if k is not None:
+                R.setdefault(k, []).append((r, s))
+                rsec.add(tuple(T.show(p) for p in s[0][:-1]))
+                keyed = True
+        if not keyed:
+            unkeyed.append(r)
+    return wcx, W, R, wsec, rsec, unkeyed, emits, reads
+
+
+SECTION_BY_RULE = {"treeinfo.Variant": "the section name depends on the variant type: decided by R-SECTION-DEP"}
+SECTION_EQUIV = {
+    # writer section text -> reader section text accepted as the same place, with the reason
+    ("composeinfo.Variant", ("self.uid",), ("variant_uid",)): "Variants/Variant.deserialize pass the key the variant is stored under",
+    ("images.Image", ("'[]'",), ()): "one list element <-> one dict handed to Image.deserialize",
+    ("treeinfo.Tree", ("'tree'",), ("('tree' if parser.has_section('tree') else 'general')",)): "[tree], with the documented legacy fallback to [general]",
+}
+
+
+def r_schema(model, rep, qname, floor_keys):
+    cls = model.cls(qname)
+    wcx, W, R, wsec, rsec, unkeyed, emits, reads = schema_tables(model, qname)
+    init = cls.init_attrs(model)
+    # (e) section agreement
+    if qname in SECTION_BY_RULE:
+        wsec = rsec = set()
+    ok = wsec == rsec
+    if not ok:
+        ok = all((ws == rs) or (qname, ws, rs) in SECTION_EQUIV or any(
+            (qname, ws, r2) in SECTION_EQUIV for r2 in rsec) for ws in wsec for rs in rsec if ws != rs) and \
+            all(any(ws == rs or (qname, ws, rs) in SECTION_EQUIV for ws in wsec) for rs in rsec)
+    rep.ob("R-SCHEMA", "%s:section" % qname, ok, site=wcx.site(wcx.node),
+           msg="" if ok else "writer emits under %s but the reader reads from %s" % (sorted(wsec), sorted(rsec)),
+           facts={"writer": sorted(wsec), "reader": sorted(rsec)})
+    # (a) key sets
+    wkeys = set(k for k in W if (qname, k) not in WRITTEN_ONLY)
+    rkeys = set(k for k in R if (qname, k) not in READ_ONLY)
+    if len(wkeys) < floor_keys:
+        raise AnalysisError("vacuity guard: writer table of %s has %d keys (floor %d)" % (qname, len(wkeys), floor_keys))
+    for k in sorted(wkeys | rkeys):
+        if (qname, k) in SCHEMA_SKIP:
+            continue
+        ok = k in wkeys and k in rkeys
+        site = wcx.site(W[k][0].ev.lineno) if k in W else "%s:%s" % (cls.module.rel(), R[k][0][0].ev.lineno)
+        rep.ob("R-SCHEMA", "%s:key:%s" % (qname, k), ok, site=site,
+               msg="" if ok else ("key %r is written but never read back by the current-version reader" % k if k in wkeys
+                                  else "key %r is read by the current-version reader but never written" % k))
+        if not ok:
+            continue
+        # (b) attribute agreement
+        wattrs = set()
+        for e in W[k]:
+            wattrs |= set(wcx.self_attrs_in(e.value))
+        rattrs = set(r.attr for r, s in R[k])
+        # a constant written under a guard on the attribute ('true' if self.is_layered)
+        if not wattrs:
+            for e in W[k]:
+                for g in facts.non_gate_guards(e.ev):
+                    wattrs |= set(wcx.self_attrs_in(g[0]))
+        okb = len(rattrs) == 1 and rattrs <= wattrs and len(wattrs - rattrs) <= 1
+        extra = wattrs - rattrs
+        if extra and extra != {"arch"}:
+            okb = False
+        rep.ob("R-SCHEMA", "%s:attr:%s" % (qname, k), okb, site=site,
+               msg="" if okb else "key %r is written from self.%s but read into self.%s" % (k, "/".join(sorted(wattrs)) or "?", "/".join(sorted(rattrs))))
+        if not okb:
+            continue
+        attr = list(rattrs)[0]
+        # (c) guards and defaults
+        for e in W[k]:
+            guards = facts.non_gate_guards(e.ev)
+            gattrs = set()
+            for g in guards:
+                gattrs |= set(wcx.self_attrs_in(g[0]))
+                for x in T.walk(g[0]):
+                    if x[0] == "local":
+                        gattrs.add("<local:%s>" % x[1])
+            allowed = {attr} | COMPANIONS.get((qname, k), set())
+            okg = gattrs <= allowed
+            rep.ob("R-SCHEMA", "%s:guard:%s" % (qname, k), okg, site=wcx.site(e.ev.lineno),
+                   msg="" if okg else "key %r is only written under a condition on %s (allowed: its own attribute %s)" % (
+                       k, sorted(gattrs - allowed), sorted(allowed)))
+            conditional = bool(guards)
+            for r, s in R[k]:
+                rguards = [g for g in r.guards]
+                guarded_read = any(T.contains(g[0], lambda x: x[0] == "call" and x[1][0] == "attr" and x[1][2] in ("has_option", "has_section")) or
+                                   T.contains(g[0], lambda x: x[0] == "cmp" and x[1] == ("in",) and x[2][0] == ("const", k)) for g in rguards)
+                if conditional:
+                    okc = s[1] == "soft" or guarded_read
+                    rep.ob("R-SCHEMA", "%s:optional:%s" % (qname, k), okc, site="%s:%s" % (cls.module.rel(), r.ev.lineno),
+                           msg="" if okc else "key %r is written conditionally but read unconditionally (KeyError on the library's own output)" % k)
+                if s[1] == "soft":
+                    d = s[2]
+                    ia = init.get(attr)
+                    want = None
+                    try:
+                        dv = wcx.const_of(d) if d is not None else None
+                        iv = model.fold(ia.value, ia.cls.module) if ia is not None and ia.value is not None else None
+                        okd = dv == iv or DOCUMENTED_DEFAULTS.get((qname, k), object()) == dv
+                        want = iv
+                    except NotConst:
+                        okd = False
+                        dv = T.show(d)
+                    rep.ob("R-SCHEMA", "%s:default:%s" % (qname, k), okd, site="%s:%s" % (cls.module.rel(), r.ev.lineno),
+                           msg="" if okd else "default %r used when %r is absent differs from the attribute's initial value %r" % (dv, k, want))
+        # (d) transform pair
+        for e in W[k]:
+            ws = wshape(wcx, e.value, {attr})
+            for r, s in R[k]:
+                rs = rshape(r.value, [s])
+                okt = (ws, rs) in INVERSE_PAIRS
+                rep.ob("R-SCHEMA", "%s:transform:%s" % (qname, k), okt, site=wcx.site(e.ev.lineno),
+                       msg="" if okt else "written as %s but read back as %s: not a confirmed inverse pair" % (ws, rs),
+                       facts={"writer": ws, "reader": rs, "why": INVERSE_PAIRS.get((ws, rs))})
+    return W, R, unkeyed
+
+
+# ---------------------------------------------------------------------------------------------------------
+# R-FIELDS
+# ---------------------------------------------------------------------------------------------------------
+FIELD_EXEMPT = {
+    ("treeinfo.Header", "version"): "the file always carries the current version (R-HDR-CURRENT)",
+    ("common.Header", "parent"): "back-pointer",
+    ("treeinfo.Header", "parent"): "back-pointer",
+    ("images.Image", "parent"): "back-pointer",
+    ("composeinfo.Variant", "parent"): "re-created from the nesting on load (R-VARIANT-TREE)",
+    ("composeinfo.Variant", "variants"): "emitted by recursion (R-NESTED-REACH) and as the 'variants' id list",
+    ("composeinfo.VariantBase", "parent"): "back-pointer",
+    ("composeinfo.Variants", "parent"): "always None",
+    ("composeinfo.Variants", "variants"): "emitted by recursion",
+    ("composeinfo.VariantPaths", "identity"): "declared but not part of the documented format",
+    ("composeinfo.VariantPaths", "parent"): "unused",
+    ("treeinfo.Variants", "parent"): "always None",
+    ("treeinfo.Variants", "variants"): "emitted by recursion and as [tree]/variants",
+    ("treeinfo.Variant", "variants"): "emitted by recursion and as the 'addons' list",
+}
+
+
+def r_fields(model, rep, qname):
+    """every public data attribute assigned in __init__ is emitted by serialize"""
+    cls = model.cls(qname)
+    wf = model.own_method(qname, "serialize")
+    wcx, emits = facts.writer_emits(model, wf)
+    used = set()
+    for e in emits:
+        used |= set(wcx.self_attrs_in(e.value))
+        for g in e.guards:
+            pass
+        for p in e.path:
+            used |= set(wcx.self_attrs_in(p))
+    # field-list loops:  for name in self._fields: getattr(self, name)
+    for e in emits:
+        for x in T.walk(e.value):
+            if x[0] == "call" and x[1] == ("global", "getattr") and x[2] and wcx.is_self(x[2][0]) and x[2][1][0] == "elem":
+                try:
+                    for n in wcx.const_of(x[2][1][1]):
+                        used.add(n)
+                except NotConst:
+                    pass
+    # a constant written under a guard on the attribute
+    for e in emits:
+        if not wcx.self_attrs_in(e.value):
+            for g in facts.non_gate_guards(e.ev):
+                used |= set(wcx.self_attrs_in(g[0]))
+    for attr, ia in sorted(cls.init_attrs(model).items()):
+        if attr.startswith("_"):
+            continue
+        k = ia.kind(model)
+        if k == "param" and (qname, attr) not in (("common.Header", "metadata_type"), ("treeinfo.Header", "metadata_type")):
+            continue
+        if (qname, attr) in FIELD_EXEMPT or (ia.cls.qname, attr) in FIELD_EXEMPT:
+            rep.ob("R-FIELDS", "%s.%s" % (qname, attr), True, trivial=True, facts={"exempt": FIELD_EXEMPT.get((qname, attr)) or FIELD_EXEMPT.get((ia.cls.qname, attr))})
+            continue
+        ok = attr in used
+        rep.ob("R-FIELDS", "%s.%s" % (qname, attr), ok, site=wcx.site(wcx.node),
+               msg="" if ok else "attribute %s.%s is part of the object but serialize() never emits it" % (qname, attr))
+
+
+# ---------------------------------------------------------------------------------------------------------
+# R-COMPOSITE: top-level writer and reader visit the same children under the same conditions
+# ---------------------------------------------------------------------------------------------------------
+def composite_children(model, fref, method, version=None, _depth=0):
+    cx = facts.fctx(model, fref)
+    out = []
+    for ev in cx.events:
+        if ev.kind != "call" or ev.value[1][0] != "attr":
+            continue
+        if version is not None and not facts.active_at(ev, version):
+            continue
+        recv, meth = ev.value[1][1], ev.value[1][2]
+        if meth == method:
+            a = cx.self_attr(recv)
+            if a is None:
+                continue
+            guards = tuple(sorted("%s:%s" % (T.show(g[0]), "T" if g[1] else "F") for g in facts.non_gate_guards(ev)))
+            out.append((a, guards, ev))
+        elif cx.is_self(recv) and meth.startswith(method + "_") and _depth < 1 and fref.cls is not None:
+            lk = fref.cls.lookup(meth)
+            if lk:
+                sub = FuncRef(lk[0].module, lk[0], lk[1])
+                out.extend(composite_children(model, sub, method, version, _depth + 1)[1])
+    return cx, out
+
+
+def r_composite(model, rep, qname, expected_children):
+    wcx, wch = composite_children(model, model.own_method(qname, "serialize"), "serialize")
+    rcx, rch = composite_children(model, model.own_method(qname, "deserialize"), "deserialize", version=current_version(model))
+    wmap = dict((a, g) for a, g, ev in wch)
+    rmap = dict((a, g) for a, g, ev in rch)
+    for a in expected_children:
+        ok = a in wmap and a in rmap
+        rep.ob("R-COMPOSITE", "%s:child:%s" % (qname, a), ok, site=wcx.site(wcx.node),
+               msg="" if ok else "section object %r is %s" % (a, "not written" if a not in wmap else "not read back"))
+        if ok:
+            okg = wmap[a] == rmap[a]
+            rep.ob("R-COMPOSITE", "%s:condition:%s" % (qname, a), okg, site=wcx.site(wcx.node),
+                   msg="" if okg else "self.%s is written under %s but read under %s" % (a, list(wmap[a]) or "no condition", list(rmap[a]) or "no condition"))
+    extra = (set(wmap) | set(rmap)) - set(expected_children)
+    rep.ob("R-COMPOSITE", "%s:children" % qname, not extra, site=wcx.site(wcx.node), trivial=True,
+           msg="" if not extra else "unexpected additional section objects %s (rule table out of date)" % sorted(extra))
+    # reader order: header first, release before base_product (their gates / conditions depend on them)
+    order = [a for a, g, ev in rch]
+    ok = bool(order) and order[0] == "header"
+    if "base_product" in order and "release" in order:
+        ok = ok and order.index("release") < order.index("base_product")
+    rep.ob("R-COMPOSITE", "%s:reader-order" % qname, ok, site=rcx.site(rcx.node),
+           msg="" if ok else "the reader must read the header first and the release before the base product: %s" % order)
+    # writer: header is written on every path
+    hdr = [ev for a, g, ev in wch if a == "header"]
+    ok = bool(hdr) and not hdr[0].guards and not hdr[0].loops
+    rep.ob("R-COMPOSITE", "%s:header-always-written" % qname, ok, site=wcx.site(wcx.node),
+           msg="" if ok else "the header is not written unconditionally")
+
+
+# ---------------------------------------------------------------------------------------------------------
+# R-REQUIRED (C07)
+# ---------------------------------------------------------------------------------------------------------
+SCHEMA_CLASSES = [
+    ("common.Header", 1), ("composeinfo.Compose", 6), ("composeinfo.BaseProduct", 4), ("composeinfo.Release", 6),
+    ("composeinfo.Variant", 5), ("images.Image", 15),
+    ("treeinfo.Header", 1), ("treeinfo.BaseProduct", 3), ("treeinfo.Release", 4), ("treeinfo.Tree", 3),
+    ("treeinfo.Variant", 4), ("treeinfo.Stage2", 2), ("treeinfo.Media", 2),
+]
+
+
+def _validator_rejects_default(model, cls, attr, default):
+    """abstractly evaluate the field's assertions on a constant default: does validate() reject it?"""
+    for a in facts.assertions_of(model, cls):
+        if a.field != attr or any(g[0][0] != "exc" for g in a.guards):
+            continue
+        if a.kind == "type":
+            tname = type(default).__name__
+            if tname not in a.arg:
+                return True
+        if a.kind == "not_blank" and not default:
+            return True
+        if a.kind == "value" and default not in a.arg:
+            return True
+    return False
 
 
 def r_required(model, rep):
-    return
+    """mandatory keys are read hard, or their default is rejected by the field validator; soft reads are allowed
+    exactly for the documented-optional set"""
+    n = 0
+    for qname, _ in SCHEMA_CLASSES:
+        cls = model.cls(qname)
+        V = current_version(model)
+        rf = model.own_method(qname, "deserialize")
+        reads = facts.reader_reads(model, rf, version=V)
+        for r in reads:
+            for s in r.sources:
+                k = _const_key(s[0][-1]) if s[0] else None
+                if k is None:
+                    continue
+                n += 1
+                guarded = any(T.contains(g[0], lambda x: x[0] == "call" and x[1][0] == "attr" and x[1][2] in ("has_option", "has_section"))
+                              for g in r.guards)
+                soft = s[1] == "soft" or guarded
+                if not soft:
+                    rep.ob("R-REQUIRED", "%s:%s" % (qname, k), True, site="%s:%s" % (cls.module.rel(), r.ev.lineno),
+                           facts={"access": "hard"})
+                    continue
+                if (qname, k) in REQUIRED_KEYS_SOFT_OK:
+                    rep.ob("R-REQUIRED", "%s:%s" % (qname, k), True, site="%s:%s" % (cls.module.rel(), r.ev.lineno),
+                           facts={"access": "soft", "documented_optional": True})
+                    continue
+                rejected = False
+                if s[1] == "soft" and s[2] is not None and s[2][0] == "const":
+                    rejected = _validator_rejects_default(model, cls, r.attr, s[2][1])
+                rep.ob("R-REQUIRED", "%s:%s" % (qname, k), rejected, site="%s:%s" % (cls.module.rel(), r.ev.lineno),
+                       msg="" if rejected else "mandatory key %r is read with a default (%s) that the validator of %s accepts: a "
+                                               "document lacking the key would load" % (k, T.show(s[2]) if s[2] else "guarded read", r.attr))
+    if n < 55:
+        raise AnalysisError("vacuity guard: R-REQUIRED examined %d keyed reads (floor 55)" % n)
+    # required sections of the JSON documents are read hard: data["payload"], data["payload"][<table>]
+    for q, table in (("images.Images", "images"), ("rpms.Rpms", "rpms"), ("modules.Modules", "modules"),
+                     ("extra_files.ExtraFiles", "extra_files")):
+        f = model.own_method(q, "deserialize")
+        cx = facts.fctx(model, f)
+        srcs = []
+        inlined = [f]
+        for name in ("deserialize_1_0",):
+            if name in model.cls(q).methods:
+                inlined.append(model.own_method(q, name))
+        for g in inlined:
+            gcx = facts.fctx(model, g)
+            IN = ("param", gcx.params[1])
+            for ev in gcx.events:
+                for t in (ev.value, ev.target):
+                    if t is not None:
+                        srcs.extend(facts.source_accesses(gcx, t, IN))
+                for lp in ev.loops:
+                    srcs.extend(facts.source_accesses(gcx, lp[1], IN))
+        hard = any(s[1] == "hard" and [T.show(p) for p in s[0]][:2] == ["'payload'", "'%s'" % table] for s in srcs)
+        rep.ob("R-REQUIRED", "%s:payload/%s" % (q, table), hard, site=cx.site(f.node),
+               msg="" if hard else "the payload table %r is not read with a hard access" % table)
+
+
+# ---------------------------------------------------------------------------------------------------------
+# R-GATE
+# ---------------------------------------------------------------------------------------------------------
+# documented dispatch: (function, sorted list of versions for which the guarded branch is taken, on grid)
+def gate_predicate(spec):
+    op, v = spec
+    return {"<": lambda x: x < v, "<=": lambda x: x <= v, "==": lambda x: x == v, ">=": lambda x: x >= v,
+            ">": lambda x: x > v}[op]
+
+
+GATE_TABLE = {
+    # function qualified name -> list of documented gates, in source order: (op, version, what the branch does)
+    "common.Header.deserialize": [(">=", (1, 1), "metadata type is checked")],
+    "treeinfo.Header.deserialize": [(">=", (1, 1), "metadata type is checked")],
+    "composeinfo.Compose.deserialize": [("<", (0, 3), "date/type/respin derived from the id")],
+    "composeinfo.Release.deserialize": [("<=", (0, 3), "'product' section")],
+    "composeinfo.Variants.deserialize": [("<", (1, 0), "variant tree derived from UID prefixes")],
+    "composeinfo.Variant.deserialize": [("<", (1, 0), "children derived from UID prefixes")],
+    "images.Images.deserialize": [("<=", (1, 1), "src images re-filed under binary arches")],
+    "images.Images.add": [(">=", (1, 1), "identity uniqueness enforced")],
+    "images.Image.deserialize": [("<=", (1, 0), "subvariant optional")],
+    "rpms.Rpms.deserialize": [("<=", (0, 3), "0.3 manifest reader")],
+    "treeinfo.Release.deserialize": [("==", (0, 0), "pre-productmd reader"), ("<=", (0, 3), "'product' section")],
+    "treeinfo.Tree.deserialize": [("==", (0, 0), "pre-productmd reader")],
+    "treeinfo.Variants.deserialize": [("==", (0, 0), "pre-productmd reader")],
+    "treeinfo.VariantPaths.deserialize": [("==", (0, 0), "pre-productmd reader"), ("<=", (0, 3), "lookup reader")],
+    "treeinfo.Variant.deserialize": [("==", (0, 0), "pre-productmd reader"), ("<=", (0, 3), "0.3 reader")],
+    "treeinfo.Images._fix_path": [("==", (0, 0), "absolute legacy paths rewritten")],
+    "treeinfo.Stage2._fix_path": [("==", (0, 0), "absolute legacy paths rewritten")],
+    "treeinfo.Checksums._fix_path": [("==", (0, 0), "absolute legacy paths rewritten")],
+    "treeinfo.Media.deserialize": [("==", (0, 0), "pre-productmd reader")],
+}
+
+
+def r_gate(model, rep, tier, only=None):
+    """every version gate, evaluated on a version grid, equals the documented dispatch"""
+    grid = facts.version_grid(tier)
+    sites = facts.gate_sites(model)
+    by_func = {}
+    for s in sites:
+        by_func.setdefault(s.fref.qname, []).append(s)
+    for q in sorted(set(by_func) | set(GATE_TABLE)):
+        if only is not None and q not in only:
+            continue
+        found = sorted(by_func.get(q, []), key=lambda s: (s.lineno, s.node.col_offset))
+        want = GATE_TABLE.get(q)
+        if want is None:
+            for s in found:
+                rep.ob("R-GATE", "%s:undocumented-gate" % q, False, site=s.fref.module.site(s.node),
+                       msg="version gate %s not in the documented dispatch table" % ast.unparse(s.node))
+            continue
+        if len(found) != len(want):
+            rep.ob("R-GATE", "%s:gates" % q, False, site="productmd/%s.py" % q.split(".")[0],
+                   msg="expected %d version gate(s) (%s), found %d" % (len(want), "; ".join(w[2] for w in want), len(found)))
+            continue
+        for s, w in zip(found, want):
+            pred = gate_predicate((w[0], w[1]))
+            diff = [v for v in grid if facts.CMP_FUNCS[s.op](v, s.version) != pred(v)]
+            rep.ob("R-GATE", "%s:%s" % (q, w[2]), not diff, site=s.fref.module.site(s.node),
+                   msg="" if not diff else "gate '%s' dispatches differently from the documented 'version %s %s' at version(s) %s"
+                   % (ast.unparse(s.node), w[0], ".".join(map(str, w[1])), ", ".join("%d.%d" % v for v in diff[:4])),
+                   facts={"gate": ast.unparse(s.node), "documented": "%s %s" % (w[0], w[1]), "grid": len(grid)})
+    if only is None:
+        rep.floor("R-GATE", 22)
+        rep.extra["exhaustive_gate_grid"] = len(grid)
+
+
+# ---------------------------------------------------------------------------------------------------------
+# R-HDR-CURRENT / R-SETCUR
+# ---------------------------------------------------------------------------------------------------------
+TOP_LEVEL = {
+    "composeinfo.ComposeInfo": "productmd.composeinfo", "images.Images": "productmd.images", "rpms.Rpms": "productmd.rpms",
+    "modules.Modules": "productmd.modules", "extra_files.ExtraFiles": "productmd.extra_files",
+    "treeinfo.TreeInfo": "productmd.treeinfo",
+}
+
+
+def r_hdr_current(model, rep):
+    # both Header.serialize write the *current* version and the object's metadata type
+    f = model.own_method("common.Header", "serialize")
+    cx, emits = facts.writer_emits(model, f)
+    setcur = [ev for ev in cx.calls("set_current_version", on_self=True) if not ev.guards]
+    ver = [e for e in emits if e.key() == ("'header'", "'version'")]
+    typ = [e for e in emits if e.key() == ("'header'", "'type'")]
+    ok = bool(setcur) and len(ver) == 1 and cx.self_attr(ver[0].value) == "version" and setcur[0].seq < ver[0].ev.seq and not ver[0].guards
+    rep.ob("R-HDR-CURRENT", "common.Header.serialize:version", ok, site=cx.site(f.node),
+           msg="" if ok else "the JSON header must be written with the current version (set_current_version() before emitting self.version)")
+    ok = len(typ) == 1 and cx.self_attr(typ[0].value) == "metadata_type" and not typ[0].guards
+    rep.ob("R-HDR-CURRENT", "common.Header.serialize:type", ok, site=cx.site(f.node),
+           msg="" if ok else "the header type must be written from self.metadata_type unconditionally")
+    g = model.own_method("common.Header", "set_current_version")
+    gcx = facts.fctx(model, g)
+    st = [ev for ev in gcx.events if ev.kind == "store" and gcx.self_attr(ev.target) == "version"]
+    want = ("call", ("attr", ("const", "."), "join"), (("comp", "list", ("call", ("global", "str"), (("bound", "i"),), ()),
+                                                      ((("names", "i"), ("global", "VERSION"), ()),)),), ())
+    ok = len(st) == 1 and T.unwrap(st[0].value) == want or (len(st) == 1 and T.show(T.unwrap(st[0].value)).replace("gen<", "list<") == T.show(want))
+    rep.ob("R-HDR-CURRENT", "common.Header.set_current_version", ok, site=gcx.site(g.node),
+           msg="" if ok else "set_current_version must set version to '.'.join(str(i) for i in VERSION)")
+    f = model.own_method("treeinfo.Header", "serialize")
+    cx, emits = facts.writer_emits(model, f)
+    ver = [e for e in emits if e.key() == ("'header'", "'version'")]
+    typ = [e for e in emits if e.key() == ("'header'", "'type'")]
+    ok = len(ver) == 1 and not ver[0].guards and T.show(ver[0].value).replace("gen<", "list<") == \
+        "'.'.join(list<str(i) for i in productmd.common.VERSION>)"
+    rep.ob("R-HDR-CURRENT", "treeinfo.Header.serialize:version", ok, site=cx.site(f.node),
+           msg="" if ok else "the INI header must be written with the current version ('.'.join(str(i) for i in VERSION))")
+    ok = len(typ) == 1 and cx.self_attr(typ[0].value) == "metadata_type" and not typ[0].guards
+    rep.ob("R-HDR-CURRENT", "treeinfo.Header.serialize:type", ok, site=cx.site(f.node),
+           msg="" if ok else "the header type must be written from self.metadata_type unconditionally")
+    # each top-level class passes the literal type of its own module
+    for q, want in sorted(TOP_LEVEL.items()):
+        cls = model.cls(q)
+        ia = cls.init_attrs(model).get("header")
+        ok = False
+        if ia is not None and isinstance(ia.value, ast.Call) and len(ia.value.args) == 2 and isinstance(ia.value.args[1], ast.Constant):
+            ok = ia.value.args[1].value == want and want == "productmd.%s" % cls.module.name
+        rep.ob("R-HDR-CURRENT", "%s:metadata-type" % q, ok, site="%s:%s" % (cls.module.rel(), ia.lineno if ia else "?"),
+               msg="" if ok else "%s must create its header with the literal type %r" % (q, want))
+
+
+def r_setcur(model, rep):
+    """every top-level reader with version-gated behaviour ends every normal path with header.set_current_version()
+    after the last gated read"""
+    for q in ("composeinfo.ComposeInfo", "images.Images", "rpms.Rpms", "treeinfo.TreeInfo"):
+        f = model.own_method(q, "deserialize")
+        cx = facts.fctx(model, f)
+        sc = [ev for ev in cx.events if ev.kind == "call" and ev.value[1] == ("attr", ("attr", ("param", cx.selfname), "header"), "set_current_version")]
+        ok, msg = True, ""
+        if not sc or sc[-1].guards or sc[-1].loops:
+            ok, msg = False, "no unconditional self.header.set_current_version() at the end of the reader"
+        else:
+            last = sc[-1]
+            later = [ev for ev in cx.events if ev.seq > last.seq and ev.kind in ("call", "store") and ev.kind != "return"]
+            later = [ev for ev in later if not (ev.kind == "call" and ev.value[1][0] == "global")]
+            if later:
+                ok, msg = False, "reads or stores happen after set_current_version() (line %s): a later version gate would see the new version" % later[0].lineno
+            rets = [ev for ev in cx.events if ev.kind == "return" and ev.seq < last.seq]
+            if rets:
+                ok, msg = False, "an early return (line %s) skips set_current_version()" % rets[0].lineno
+        rep.ob("R-SETCUR", "%s.deserialize" % q, ok, site=cx.site(f.node), msg=msg)
+    # ComposeInfo.__init__ starts at the current version as well (a fresh object writes a current file)
+    f = model.own_method("composeinfo.ComposeInfo", "__init__")
+    cx = facts.fctx(model, f)
+    sc = [ev for ev in cx.events if ev.kind == "call" and ev.value[1][0] == "attr" and ev.value[1][2] == "set_current_version"]
+    rep.ob("R-SETCUR", "composeinfo.ComposeInfo.__init__", bool(sc), site=cx.site(f.node), trivial=True,
+           msg="" if sc else "ComposeInfo() no longer starts at the current version")
